@@ -8,6 +8,7 @@ OUT="$PWD/.build"
 PROP="${1:-all}"
 cp /repo/hermes/go.sum harness/go.sum.repo 2>/dev/null || true
 ( cd harness && go build -tags verif -o ../.build/vmon . )
+case "$PROP" in C03|all) ( cd harness && go build -race -tags verif -o ../.build/vmon_race . );; esac
 need_bins=0
 case "$PROP" in C03|C11|C13|C17|all) need_bins=1;; esac
 if [ $need_bins = 1 ]; then
